@@ -46,4 +46,85 @@ CHECKS = {
         "assumptions": TRUST + ["the simulated master follows Binlog_sender (artificial ROTATE, format description, events from the requested offset, next file after a real ROTATE, EOF at the end)",
                                 "how Stream/Error() end at the EOF is judged by C05/C06, not here"],
     },
+    "C02": {
+        "test": "TestC02", "level": "exploration", "checks": (150, 8000), "timeout": (900, 7200),
+        "rule": "(1) all 2^5+2^6+2^8 casings of begin/commit/rollback against GetStatementCategory; (2) EXHAUSTIVE: every sequence of length <= 3 (thorough: <= 4) over the "
+                "14-symbol unit alphabet {tx/XID, tx/COMMIT, rolled-back tx, tx with ignorable events and statements inside, DDL, autocommitted rows, statement DML, rotation, "
+                "GTID, anonymous GTID, previous-GTIDs, heartbeat, unknown event, unknown statement}, each streamed end to end (config variant and pacing vary with the index, "
+                "half lock-step); (3) rapid-generated histories of up to 12 commit units with ignorable units between and inside transactions. Oracle: grouping equals the "
+                "reference model, uniquely tagged changes appear exactly once and in order, and no transaction reaches the handler before the master had begun to write its "
+                "commit event. Non-trivial = >= 2 commit points and >= 1 other unit after the first; distinct = distinct case hashes among those",
+        "assumptions": TRUST + ["only statements whose first keyword is followed by a space or the end of the text are generated (what MySQL logs); nested BEGIN and ROLLBACK TO SAVEPOINT are outside the property",
+                                "an autocommitted row change is one table map plus one rows event"],
+    },
+    "C03": {
+        "test": "TestC03", "level": "exploration", "checks": (150, 6000), "timeout": (900, 7200),
+        "rule": "rapid-generated histories with 0..2 rotations and first-file offsets up to 2^32-1; run A streams from a drawn boundary; then for every delivered transaction k "
+                "(8 sampled when more) a NEW Streamer is started at A[k].NextPosition. Oracle: A's labels equal the reference coordinates and obey the chain law; each resumed "
+                "stream's dump request carries exactly the label, the label is an event boundary, and its deliveries are deep-equal to A[k+1:] (and equal the model). "
+                "Non-trivial = (>= 3 transactions and >= 1 rotation) or an offset above 2^31; distinct = distinct case hashes among those",
+        "assumptions": TRUST + ["a file's served region may start at a large offset (indistinguishable, for a replica that starts there, from a long file)"],
+    },
+    "C07": {
+        "test": "TestC07", "level": "exploration", "checks": (400, 20000), "timeout": (600, 3600),
+        "rule": "rapid-generated (server id in {1, 2^31-1, 2^31, 2^32-1, random}, binlog file name of 1..200 bytes incl. UTF-8 and spaces, offset in {4, 2^31-1, 2^31+1, "
+                "2^32-1-size, random}) x 1..4 attempts on one streamer (each failing attempt is cut by a connection close after 0..2 further commits). Oracle: the command log "
+                "decoded by the simulated master for every attempt: SET @master_binlog_checksum before the dump, exactly one COM_BINLOG_DUMP, no NON_BLOCK flag, configured "
+                "server id, and file/offset equal to the SetBinlogPosition value (first attempt) or the end label of the last accepted transaction (later attempts). "
+                "Non-trivial = server id >= 2^31 or offset >= 2^31 or >= 2 attempts; distinct = distinct case hashes among those",
+        "assumptions": TRUST + ["extra harmless queries before the checksum query are tolerated"],
+    },
+    "C08": {
+        "test": "TestC08", "level": "exploration", "checks": (200, 8000), "timeout": (900, 7200),
+        "rule": "rapid-generated histories whose string/blob values are pushed to 3000..9000 bytes (packets straddle the driver's 4 KiB receive buffer) and which contain "
+                "zero TIMESTAMPs, streamed with far-ahead or lock-step pacing to a handler that snapshots each delivery and (half the cases) overwrites every delivered value "
+                "in place. Oracle: every delivery equals the model at delivery time whatever was overwritten before; no value changes when another value of the same delivery "
+                "is overwritten; retained transactions equal their snapshot (or snapshot + own overwrites) after the stream ended and after a second unrelated stream ran. "
+                "Non-trivial = (>= 3 transactions with a value >= 100 bytes) or a zero timestamp delivered twice; distinct = distinct case hashes among those",
+        "assumptions": TRUST + ["the handler only overwrites bytes in place (never appends to a delivered slice)"],
+    },
+    "C20": {
+        "test": "TestC20", "level": "exploration", "checks": (700, 40000), "timeout": (600, 3600),
+        "rule": "two thirds synthetic Transaction values (arbitrary bytes in file names, table names, SQL, column names and data: control characters, quotes, backslashes, "
+                "<>&, invalid UTF-8; nil vs empty data; nil Events; unknown kind / type codes), one third transactions delivered end to end by C01's generator. Oracle: "
+                "json.Marshal succeeds, json.Valid, and a generic decode shows both positions, every event's kind string / table / sql, and per column filed, type name (from the "
+                "harness's own table of documented names), isEmpty and data with NULL <-> null, empty <-> \"\" and valid UTF-8 verbatim. Non-trivial = the transaction has "
+                ">= 1 event; distinct = distinct case hashes among those",
+        "assumptions": TRUST + ["invalid UTF-8 is only required to produce valid JSON (encoding/json substitutes U+FFFD)"],
+    },
+}
+
+NOT_APPLICABLE = {}
+
+_BASE_NOTE = ("Trusted: Go runtime/stdlib, rapid, the kernel's loopback TCP, and the harness's own independent encoder (verif/refenc) and reference model "
+              "(verif/hist). The unmodified Breeze0806/mysql driver is part of the system under test. Generated search never shows absence.")
+
+MANIFEST_TEXT = {
+    "C01": {"technique": "property-based testing: generated histories served by a simulated master vs. a reference model (model-based differential oracle)",
+            "level_text": "Exploration: thousands of generated RBR histories per run are streamed through the real Stream() over TCP and every delivered field is compared with a model computed from the logical history; finds fidelity defects in any generated shape, proves nothing about shapes not generated.",
+            "level_note": _BASE_NOTE},
+    "C02": {"technique": "exhaustive enumeration of unit sequences up to a bound + property-based testing beyond it, reference grouping and a not-before-commit schedule oracle",
+            "level_text": "Exploration with an exhaustive sub-space: every unit sequence up to length 3 (4 thorough) and every keyword casing is run; longer histories are sampled.",
+            "level_note": _BASE_NOTE},
+    "C03": {"technique": "property-based testing with a metamorphic oracle (resume at every delivered label == suffix of the uninterrupted stream) plus model labels",
+            "level_text": "Exploration: each generated history is streamed once and then re-streamed from every delivered end label; labels are compared with the model and the resumed streams with the original deliveries.",
+            "level_note": _BASE_NOTE},
+    "C07": {"technique": "property-based testing: generated ids / file names / offsets / attempt sequences, oracle = commands decoded by the simulated master",
+            "level_text": "Exploration over configuration and attempt sequences; the wire commands of every attempt are decoded independently and compared with the configuration.",
+            "level_note": _BASE_NOTE},
+    "C08": {"technique": "property-based testing with snapshot-vs-later-read and scribbling-handler oracles over buffer-straddling packet sizes and pacings",
+            "level_text": "Exploration: deliveries are snapshotted, overwritten in place and re-read after further stream activity, with packet sizes around the driver's buffer size.",
+            "level_note": _BASE_NOTE},
+    "C10": {"technique": "exhaustive sweep of 8/16/24-bit (32-bit thorough) domains + property-based testing for 64-bit, floats (parse-back oracle), YEAR/BIT/ENUM/SET",
+            "level_text": "Exploration with exhaustive sub-spaces: all raw values of the narrow integer types in both signedness modes are enumerated; wider domains are sampled at boundaries and uniformly.",
+            "level_note": _BASE_NOTE},
+    "C11": {"technique": "enumeration of all (precision, scale) pairs x digit patterns + property-based testing, independent decimal2bin vs canonical-text oracle",
+            "level_text": "Exploration, exhaustive over the 1,580 (p,s) pairs with structured digit patterns, sampled over digit strings.",
+            "level_note": _BASE_NOTE},
+    "C12": {"technique": "exhaustive sweep of the 2^24 raw 3-byte DATE/TIME values + property-based testing of the wider encodings under four process time zones",
+            "level_text": "Exploration with exhaustive sub-spaces (all valid raw old DATE / TIME values); fractional encodings and zones are sampled.",
+            "level_note": _BASE_NOTE},
+    "C20": {"technique": "property-based testing: synthetic hostile and end-to-end transactions, encoding/json parse-back structural oracle",
+            "level_text": "Exploration: generated transactions are serialised and decoded generically; structure and NULL/empty/UTF-8 rules are compared with the source value.",
+            "level_note": _BASE_NOTE},
 }
